@@ -94,6 +94,25 @@ pub fn gen(tier: &str, r: &mut Rng) -> Vec<String> {
         "data_x _struct_ncs_oper.id 1 _struct_ncs_oper.id 1 _struct_ncs_oper.matrix[1][1] 2", "data_x _struct_ncs_oper.id 1 _struct_ncs_oper.matrix[9][9] 2", "data_x _struct_ncs_oper.id 1 _struct_ncs_oper.details x _struct_ncs_oper.foo 1",
         "data_x loop_ _atom_site.group_PDB ATOM", "data_x loop_ _atom_site.group_PDB _atom_site.id ATOM 1"] {
         for _ in 0..3 { push(&mut out, r, f.as_bytes().to_vec(), "structure"); }
+        // the same faults with non-ASCII characters inside or next to the words of the line that is reported (a
+        // position counted in characters must not be used to cut bytes)
+        let words = split_tokens(f);
+        for i in 0..words.len() {
+            for (pre, post) in [("", "\u{e9}"), ("", "\u{e9}t\u{e9}\u{20ac}"), ("", "\u{3b1}\u{1f600}x")] {
+                if words[i].0.is_empty() { continue; }
+                let mut s2 = String::new();
+                for (j, (a, b)) in words.iter().enumerate() { if i == j { s2.push_str(pre); s2.push_str(a); s2.push_str(post); } else { s2.push_str(a); } s2.push_str(b); }
+                push(&mut out, r, s2.into_bytes(), "structure-non-ascii");
+            }
+        }
+    }
+    // an atom_site loop cut short after a non-ASCII word, and loops whose value count does not fit the header
+    for tail in ["C\u{3b1}", "\u{e9}", "X\u{fc}", "'\u{e9}'", "\u{e9} \u{e9}"] {
+        for head in ["data_x loop_ _a.x _a.y 1 2 ", "data_x\nloop_\n_atom_site.id\n_atom_site.label_atom_id\n1 ", "data_\u{e9} loop_ _a.x _a.y _a.z \u{e9} 2 3 ", "data_x save_caf\u{e9} _a ", "data_x _entry.identit\u{e9} ", "data_x _entry.\u{e9}\u{e9} $x "] {
+            push(&mut out, r, format!("{}{}", head, tail).into_bytes(), "structure-non-ascii");
+            push(&mut out, r, format!("{}{}\n", head, tail).into_bytes(), "structure-non-ascii");
+            push(&mut out, r, head.trim_end().as_bytes().to_vec(), "structure-non-ascii");
+        }
     }
     // every unit-cell item x odd values (range ends of the angles, negatives, non-numbers, overflow), alone and
     // inside an otherwise complete cell
